@@ -301,6 +301,38 @@ func ruleWebVTTSettings(p *Prog, l *Ledger, tier string) {
 			}
 		}
 	}
+	// reader, table form: settings[split[0]] on a map literal whose values are the addresses of the fields
+	for _, b := range rd.Blocks {
+		for _, ins := range b.Instrs {
+			lk, ok := ins.(*ssa.Lookup)
+			if !ok {
+				continue
+			}
+			sep := sepOf(lk.Index)
+			if sep == "" || reader[sep] == nil {
+				continue
+			}
+			mk, ok := lk.X.(*ssa.MakeMap)
+			if !ok {
+				continue
+			}
+			for _, r := range *mk.Referrers() {
+				mu, ok := r.(*ssa.MapUpdate)
+				if !ok {
+					continue
+				}
+				k, ok := constStr(mu.Key)
+				if !ok {
+					continue
+				}
+				if fa, ok := mu.Value.(*ssa.FieldAddr); ok {
+					if _, f := fieldOfAddr(fa); f != "" {
+						reader[sep][k] = f
+					}
+				}
+			}
+		}
+	}
 	// writer: "key<sep>" + value, in the writer or in a helper it calls with the key and the value
 	// (then every call site of the helper is one setting: parameters are replaced by its arguments)
 	writer := map[string]map[string]strset{":": {}, "=": {}}
@@ -703,6 +735,13 @@ func (p *Prog) instantiate(root, h *ssa.Function, vs []ssa.Value) [][]ssa.Value 
 				for _, e := range t.Edges {
 					walk(e)
 				}
+			case *ssa.UnOp:
+				// an element of a variadic / slice parameter (for _, v := range candidates)
+				if ia, ok := t.X.(*ssa.IndexAddr); ok && t.Op == token.MUL {
+					if _, isPar := ia.X.(*ssa.Parameter); isPar {
+						walk(ia.X)
+					}
+				}
 			case *ssa.Call:
 				// the value is produced by a function handed in as a parameter (a getter)
 				if !t.Call.IsInvoke() {
@@ -764,6 +803,21 @@ func traceFieldOrGetter(v ssa.Value, out strset) {
 		f, _ = x.Fn.(*ssa.Function)
 	case *ssa.Function:
 		f = x
+	}
+	// the argument list of a variadic call: every element stored into the temporary array
+	if sl, ok := v.(*ssa.Slice); ok {
+		if al, ok := sl.X.(*ssa.Alloc); ok {
+			for _, r := range *al.Referrers() {
+				if ia, ok := r.(*ssa.IndexAddr); ok {
+					for _, r2 := range *ia.Referrers() {
+						if st, ok := r2.(*ssa.Store); ok && st.Addr == ssa.Value(ia) {
+							traceField(st.Val, "", map[ssa.Value]bool{}, out)
+						}
+					}
+				}
+			}
+			return
+		}
 	}
 	if f == nil || len(f.Blocks) == 0 {
 		traceField(v, "", map[ssa.Value]bool{}, out)
